@@ -19,7 +19,12 @@ enum PKind {
   P_CTOR = 1, P_DEFAULT, P_COPY, P_MOVE, P_COPY_ASSIGN, P_MOVE_ASSIGN, P_PREINC, P_PREDEC, P_POSTINC, P_POSTDEC, P_ADD_ASSIGN, P_SUB_ASSIGN,
   P_PLUS, P_MINUS, P_FRIEND_PLUS, P_DIFF, P_CMP, P_DEREF, P_INDEX, P_WRITE, P_DESTROY,
   SP_CTOR, SP_DEFAULT, SP_COPY, SP_MOVE, SP_COPY_ASSIGN, SP_MOVE_ASSIGN, SP_ITERATE, SP_DESTROY,
-  P_PROBE_QUIESCENT, P_PROBE_PAUSE
+  P_PROBE_QUIESCENT, P_PROBE_PAUSE,
+  // spans and pointers over a multi-byte element type (uint32_t): sizes and iteration are in elements, not bytes
+  W_SPAN_CTOR, W_SPAN_COPY, W_SPAN_MOVE_ASSIGN, W_SPAN_ITERATE, W_SPAN_DESTROY, W_PTR_WALK,
+  // null wrappers (default-constructed, moved-from) are inert: they may be copied, assigned and destroyed while the thread is
+  // paused, which is when no non-null wrapper may exist
+  P_NULL_OPS_WHILE_PAUSED
 };
 // Op: a = destination slot, b = source slot / buffer, c = offset / n, d = length
 
@@ -29,22 +34,27 @@ constexpr std::ptrdiff_t kBufLen = 64;
 using Ptr = unodb::qsbr_ptr<std::byte>;
 using Span = unodb::qsbr_ptr_span<std::byte>;
 
-struct Shared { std::byte buf[kBufs][kBufLen]; };
+struct Shared { std::byte buf[kBufs][kBufLen]; std::uint32_t wide[32]; };
+using WSpan = unodb::qsbr_ptr_span<std::uint32_t>;
+using WPtr = unodb::qsbr_ptr<std::uint32_t>;
 
 struct ThreadState {
   std::optional<Ptr> p[kSlots];
   std::byte* sp[kSlots] = {};
   std::optional<Span> s[kSpanSlots];
   std::span<std::byte> ss[kSpanSlots];
+  std::optional<WSpan> w[kSpanSlots];
+  std::span<std::uint32_t> ws[kSpanSlots];
   int live_nonnull() const {
     int n = 0;
     for (int i = 0; i < kSlots; i++) if (p[i].has_value() && sp[i] != nullptr) n++;
     for (int i = 0; i < kSpanSlots; i++) if (s[i].has_value() && ss[i].data() != nullptr) n++;
+    for (int i = 0; i < kSpanSlots; i++) if (w[i].has_value() && ws[i].data() != nullptr) n++;
     return n;
   }
 };
 
-struct Counters { uint64_t probes_rejected = 0, probes_accepted = 0, ops = 0; };
+struct Counters { uint64_t probes_rejected = 0, probes_accepted = 0, ops = 0, null_ops_while_paused = 0; };
 
 struct PtrEngine final : Engine {
   const char* name() const override { return "ptrsim"; }
@@ -68,6 +78,19 @@ struct PtrEngine final : Engine {
         const int a = static_cast<int>(r.below(kSlots)), b = static_cast<int>(r.below(kSlots));
         const auto x = r.below(100);
         if (x < 12) { o.kind = r.chance(0.5) ? P_PROBE_QUIESCENT : P_PROBE_PAUSE; ops.push_back(o); continue; }
+        if (r.chance(0.10)) {
+          const auto y = r.below(100);
+          o.a = static_cast<int64_t>(r.below(kSpanSlots)); o.b = 1 - o.a;
+          if (y < 30) { o.kind = W_SPAN_CTOR; o.c = static_cast<int64_t>(r.below(16)); o.d = static_cast<int64_t>(r.below(16)); }
+          else if (y < 45) o.kind = W_SPAN_COPY;
+          else if (y < 60) o.kind = W_SPAN_MOVE_ASSIGN;
+          else if (y < 75) o.kind = W_SPAN_ITERATE;
+          else if (y < 88) o.kind = W_SPAN_DESTROY;
+          else { o.kind = W_PTR_WALK; o.c = static_cast<int64_t>(r.below(16)); o.d = static_cast<int64_t>(r.below(16)); }
+          ops.push_back(o);
+          continue;
+        }
+        if (r.chance(0.04)) { o.kind = P_NULL_OPS_WHILE_PAUSED; ops.push_back(o); continue; }
         if (x < 24) {  // span operations
           const int sa = static_cast<int>(r.below(kSpanSlots)), sb = 1 - sa;
           o.a = sa; o.b = sb;
@@ -130,8 +153,10 @@ struct PtrEngine final : Engine {
     static const char* n[] = {"?", "construct from pointer", "default-construct", "copy-construct", "move-construct", "copy-assign", "move-assign", "++p", "--p", "p++", "p--",
                               "p +=", "p -=", "p + n", "p - n", "n + p", "p - q", "compare p,q", "*p", "p[n]", "*p = byte", "destroy",
                               "span: construct from std::span", "span: default-construct", "span: copy-construct", "span: move-construct", "span: copy-assign", "span: move-assign",
-                              "span: iterate begin..end, size", "span: destroy", "probe quiescent()", "probe qsbr_pause() (+resume if accepted)"};
-    return std::string(n[o.kind <= P_PROBE_PAUSE ? o.kind : 0]) + " [slot " + std::to_string(o.a) + ", src/buf " + std::to_string(o.b) + ", n/off " + std::to_string(o.c) + ", len " + std::to_string(o.d) + "]";
+                              "span: iterate begin..end, size", "span: destroy", "probe quiescent()", "probe qsbr_pause() (+resume if accepted)",
+                              "span<uint32_t>: construct", "span<uint32_t>: copy-construct", "span<uint32_t>: move-assign", "span<uint32_t>: iterate, size", "span<uint32_t>: destroy",
+                              "qsbr_ptr<uint32_t>: arithmetic walk", "pause; copy/move/assign/destroy null wrappers; resume"};
+    return std::string(n[o.kind <= P_NULL_OPS_WHILE_PAUSED ? o.kind : 0]) + " [slot " + std::to_string(o.a) + ", src/buf " + std::to_string(o.b) + ", n/off " + std::to_string(o.c) + ", len " + std::to_string(o.d) + "]";
   }
 
   static void mismatch(int tid, size_t i, const Op& o, const std::string& what) {
@@ -200,6 +225,50 @@ struct PtrEngine final : Engine {
           }
           break;
         case SP_DESTROY: st->s[a].reset(); st->ss[a] = std::span<std::byte>(); break;
+        case W_SPAN_CTOR: st->ws[a] = std::span<std::uint32_t>(sh->wide + o.c, static_cast<size_t>(o.d)); st->w[a].emplace(st->ws[a]); break;
+        case W_SPAN_COPY: if (st->w[b]) { st->ws[a] = st->ws[b]; st->w[a].emplace(*st->w[b]); } break;
+        case W_SPAN_MOVE_ASSIGN: if (st->w[a] && st->w[b]) { st->ws[a] = st->ws[b]; st->ws[b] = std::span<std::uint32_t>(static_cast<std::uint32_t*>(nullptr), st->ws[b].size()); *st->w[a] = std::move(*st->w[b]); } break;
+        case W_SPAN_ITERATE:
+          if (st->w[a]) {
+            const WSpan& sp = *st->w[a];
+            if (sp.size() != st->ws[a].size()) mismatch(tid, i, o, "size() of a span over 4-byte elements (" + std::to_string(sp.size()) + " instead of " + std::to_string(st->ws[a].size()) + " elements)");
+            if (st->ws[a].data() != nullptr) {
+              if (sp.begin().get() != st->ws[a].data() || sp.end().get() != st->ws[a].data() + st->ws[a].size()) mismatch(tid, i, o, "begin()/end() of a span over 4-byte elements");
+              size_t k = 0;
+              for (auto it = sp.begin(); it != sp.end(); ++it, ++k) if (&*it != &st->ws[a][k] || *it != st->ws[a][k]) mismatch(tid, i, o, "element sequence of a span over 4-byte elements");
+              if (k != st->ws[a].size()) mismatch(tid, i, o, "element count of a span over 4-byte elements");
+            } else if (sp.begin().get() != nullptr) mismatch(tid, i, o, "moved-from span over 4-byte elements should hold nullptr");
+          }
+          break;
+        case W_SPAN_DESTROY: st->w[a].reset(); st->ws[a] = std::span<std::uint32_t>(); break;
+        case W_PTR_WALK: {
+          // a pointer over 4-byte elements: arithmetic is in elements
+          std::uint32_t* raw = sh->wide + o.c;
+          WPtr p(raw);
+          p += o.d; raw += o.d;
+          if (p.get() != raw) mismatch(tid, i, o, "p += n over 4-byte elements");
+          ++p; ++raw; p--; raw--;
+          const WPtr q = p - o.d;
+          if (q.get() != raw - o.d || (p - q) != o.d || &p[-o.d] != raw - o.d || *q != *(raw - o.d)) mismatch(tid, i, o, "pointer arithmetic over 4-byte elements");
+          break;
+        }
+        case P_NULL_OPS_WHILE_PAUSED: {
+          if (st->live_nonnull() != 0) break;  // pausing needs that anyway
+          me.qsbr_pause();
+          for (int k = 0; k < kSlots; k++)
+            if (st->p[k].has_value() && st->sp[k] == nullptr) {
+              Ptr copy(*st->p[k]);                 // copy-construct from a null wrapper
+              Ptr moved(std::move(copy));          // move-construct
+              *st->p[k] = moved;                   // copy-assign a null wrapper over a null wrapper
+              if (st->p[k]->get() != nullptr || moved.get() != nullptr) mismatch(tid, i, o, "a null wrapper stopped being null");
+            }
+          { Ptr fresh; Ptr other; other = std::move(fresh); }   // default-construct, move-assign, destroy
+          for (int k = 0; k < kSpanSlots; k++)
+            if (st->s[k].has_value() && st->ss[k].data() == nullptr) { Span copy(*st->s[k]); *st->s[k] = std::move(copy); }
+          me.qsbr_resume();
+          cnt->null_ops_while_paused++;
+          break;
+        }
         case P_PROBE_QUIESCENT:
         case P_PROBE_PAUSE: {
 #ifndef NDEBUG
@@ -241,6 +310,7 @@ struct PtrEngine final : Engine {
     run_begin(c, measured_ptr());
     auto sh = std::make_unique<Shared>();
     for (int b = 0; b < kBufs; b++) for (std::ptrdiff_t i = 0; i < kBufLen; i++) sh->buf[b][i] = static_cast<std::byte>((b * 64 + i) & 0xff);
+    for (std::uint32_t i = 0; i < 32; i++) sh->wide[i] = 0x01010101u * i + 7;
     std::vector<Counters> cnt(c.threads.size());
     Shared* shp = sh.get();
     const Case* cp = &c;
@@ -262,6 +332,7 @@ struct PtrEngine final : Engine {
     for (auto& k : cnt) { rej += k.probes_rejected; acc += k.probes_accepted; }
     stats().bump("probes_rejected_with_live_wrapper", rej);
     stats().bump("probes_accepted_without_live_wrapper", acc);
+    { uint64_t n = 0; for (auto& k : cnt) n += k.null_ops_while_paused; stats().bump("null_wrapper_operations_while_paused", n); }
 #ifndef NDEBUG
     res.nontrivial = rej > 0 && acc > 0;
 #else
